@@ -116,11 +116,20 @@ func registerCompiledRoute(router *server.Router, route *ast.Route, bytecode []b
 	return router.RegisterRoute(serverRoute)
 }
 
+// maxCompiledRouteSteps is the VM step budget of one compiled request. The
+// interpreter stops a while loop after 1,000,000 iterations; this allows a
+// comparable amount of work.
+const maxCompiledRouteSteps = 50_000_000
+
 // createCompiledRouteHandler creates an HTTP handler that executes compiled bytecode
 func createCompiledRouteHandler(route *ast.Route, bytecode []byte, wsHub *websocket.Hub) server.RouteHandler {
 	return func(ctx *server.Context) error {
 		// Create VM instance
 		vmInstance := vm.NewVM()
+		// Bound the work of one request, as the interpreter's loop limit does:
+		// without a step limit `while true {}` never returns and the request
+		// goroutine spins forever.
+		vmInstance.SetMaxSteps(maxCompiledRouteSteps)
 
 		// Set up WebSocket stats handler if hub is available
 		if wsHub != nil {
